@@ -387,7 +387,7 @@ pub fn def() -> PropDef {
         assumptions: &["write-once objects (no overwrite / delete in the generated domain)", "configurations the cache library rejects are counted and skipped", "with a disk tier the interleaving is not controlled (foyer uses its own threads)"],
         subs: || {
             vec![
-                Box::new(Sub::<Case> { name: "l1-only", cases: |t| t.scale(15_000, 5), strategy: |_| strategy(false), exec }),
+                Box::new(Sub::<Case> { name: "l1-only", cases: |t| t.scale(30_000, 4), strategy: |_| strategy(false), exec }),
                 Box::new(Sub::<Case> { name: "with-disk-tier", cases: |t| t.scale(400, 8), strategy: |_| strategy(true), exec }),
             ]
         },
